@@ -223,18 +223,41 @@ struct SecState {
 }
 
 pub fn build(r: &Recipe, cfg: &GenCfg) -> GenLedger {
-    let nsec = r.nsec.max(1).min(cfg.max_secs.max(1)) as usize;
+    build_from(r, cfg, None, &[])
+}
+
+/// Like `build`, but optionally starting at a given date with the given ledger already in place
+/// (its closing holdings are available to sell). Only the new lines are returned.
+pub fn build_from(r: &Recipe, cfg: &GenCfg, start: Option<NaiveDate>, prior: &[Tx]) -> GenLedger {
+    let nsec = if prior.is_empty() { r.nsec.max(1).min(cfg.max_secs.max(1)) as usize } else { cfg.max_secs.max(1) as usize };
     let mut date = anchor_date(r.anchor, r.year as i32) - Duration::days([0i64, 1, 29, 30, 31, 2][r.pre as usize % 6]);
+    if let Some(s) = start {
+        date = s;
+    }
     let max_date = NaiveDate::from_ymd_opt(cfg.max_year + 1, 4, 5).expect("date");
     let min_date = NaiveDate::from_ymd_opt(cfg.min_year, 4, 6).expect("date");
     if date < min_date {
         date = min_date;
     }
-    let mut ledger: Vec<Tx> = vec![];
+    let mut ledger: Vec<Tx> = prior.to_vec();
+    let prior_len = prior.len();
     let mut excluded = 0u64;
     let mut st: Vec<SecState> =
         (0..nsec).map(|_| SecState { hold: Rat::zero(), traded_today: false, evented_today: false }).collect();
     let ticker = |i: usize| TICKERS[i % TICKERS.len()].to_string();
+    if !prior.is_empty() {
+        if let Ok(agg) = model::aggregate(&ledger, &model::NoFx) {
+            for (i, s) in st.iter_mut().enumerate() {
+                let mut h = Rat::zero();
+                if let Some(days) = agg.get(&ticker(i)) {
+                    for dd in days {
+                        h = (&h + &dd.b - &dd.s) * &dd.ratio;
+                    }
+                }
+                s.hold = h;
+            }
+        }
+    }
 
     for (di, day) in r.days.iter().enumerate() {
         if di > 0 {
@@ -443,6 +466,7 @@ pub fn build(r: &Recipe, cfg: &GenCfg) -> GenLedger {
             }
         }
     }
+    let mut ledger: Vec<Tx> = ledger.split_off(prior_len);
     if cfg.shuffle && !r.perm.is_empty() {
         let n = ledger.len();
         let mut keyed: Vec<(u16, usize, Tx)> =
